@@ -92,12 +92,15 @@ impl SocketSend for RouterSocket {
     async fn send(&mut self, mut message: ZmqMessage) -> ZmqResult<()> {
         assert!(message.len() > 1);
         let peer_id: PeerIdentity = message.pop_front().unwrap().try_into()?;
-        match self.backend.peers.get_async(&peer_id).await {
-            Some(mut peer) => {
-                peer.send_queue.send(Message::Message(message)).await?;
-                Ok(())
-            }
-            None => Err(ZmqError::Other("Destination client not found by identity")),
+        let sent = match self.backend.peers.get_async(&peer_id).await {
+            Some(mut peer) => peer.send_queue.send(Message::Message(message)).await,
+            None => return Err(ZmqError::Other("Destination client not found by identity")),
+        };
+        if let Err(e) = sent {
+            // The connection is gone: forget the peer.
+            self.backend.peer_disconnected(&peer_id);
+            return Err(e.into());
         }
+        Ok(())
     }
 }
